@@ -162,6 +162,33 @@ pub fn with_histories(scn: &mut Scenario, rng: &mut Xo, max_iters: u64, second: 
     }
 }
 
+/// Harvest history: the goal region is the whole space, so every solve returns the branch of the
+/// node it has just added; a long history of solves on the kept tree puts (nearly) every tree
+/// edge — extension, choose-parent and REWIRED edges with descendants — on some returned path.
+fn harvest(prop: &'static str, seed: u64, index: u64, tier: Tier, families: &[&'static str], kinds: &[&'static str], angular: bool) -> Scenario {
+    let mut rng2 = Xo::new(mix(seed, "harvest", index));
+    let kind = *rng2.pick(&[PlannerKind::RRTStar, PlannerKind::RRTStar, PlannerKind::RRTStar, PlannerKind::RRT]);
+    let o2 = GenOpts { planner: Some(kind), families: families.to_vec(), space_kinds: kinds.to_vec(), max_iters: 10, min_frac: 0.02, query_budget: 1.5e6, angular_bias: angular, ..Default::default() };
+    let mut scn = gen::base(&mut rng2, prop, seed, index, &o2);
+    let ext = scn.param("ext").unwrap_or(1.0);
+    scn.planner.max_distance = ext * rng2.range(0.05, 0.2);
+    scn.planner.search_radius = scn.planner.max_distance * rng2.range(1.5, 4.0);
+    scn.planner.goal_bias = 0.0;
+    scn.problems[0].goal.radius = 100.0 * ext;
+    scn.problems[0].goal.comp = None;
+    scn.problems[0].goal.sampler = GoalSampler::Fixed;
+    let l = crate::spaces::geo_for(&scn.space).unwrap().lvs();
+    let want = if tier == Tier::Thorough { 300 } else { 120 };
+    let n = gen::affordable_iters_b(&scn.planner, l, ext, want, if prop == "C03" { 6.0e5 } else { 1.0e6 });
+    scn.calls = vec![CallSpec::Setup { problem: 0 }];
+    for _ in 0..n {
+        scn.calls.push(solve_budget(8));
+    }
+    scn.params.insert("harvest".into(), 1.0);
+    scn.family = format!("harvest/{}", scn.family);
+    scn
+}
+
 impl PathProp {
     fn opts(&self, rng: &mut Xo, tier: Tier) -> GenOpts {
         let big = tier == Tier::Thorough;
@@ -209,7 +236,7 @@ impl Check for PathProp {
         let nt = match self.id {
             "C01" => "non-trivial = a solve call returned a path, or the checker rejects the start state (the invalid-start clause is exercised)",
             "C02" => "non-trivial = a solve call returned a path (so the endpoint clauses were evaluated), in a history with the generated setup / re-setup / problem replacement / repeated-solve calls",
-            "C03" => "non-trivial = a returned path contains at least one segment longer than the resolution L (so the coverage oracle had a gap to look for)",
+            "C03" => "non-trivial = a returned path contains at least one segment longer than the resolution L (so the coverage oracle had a gap to look for); a sixth of the scenarios are harvest histories (the goal region is the whole space, up to 120 / 300 solves on the kept RRT / RRT* tree, each returning the branch of the node just added, so nearly every tree edge incl. rewired ones ends up on a returned path)",
             "C04" => "non-trivial = a path was returned and the premise held (start and every goal sample inside the bounds)",
             "C05" => "non-trivial = a path with at least two states was returned",
             "C06" => "non-trivial = the time limit passed during the call (a deadline event was located in the history), or the world is sealed and the call returned",
@@ -284,6 +311,17 @@ impl Check for PathProp {
             }
         }
         match self.id {
+            // the cheap path oracles get harvest histories too (every tree edge / node of RRT and
+            // RRT* ends up on a returned path)
+            "C01" if index % 16 == 5 => {
+                scn = harvest(self.id, seed, index, tier, &["balls", "slivers", "thin_wall", "zero_weight", "workspace"], &[], false);
+            }
+            "C04" if index % 16 == 5 => {
+                scn = harvest(self.id, seed, index, tier, &["open", "balls"], &["SO2", "SO2", "SO3", "SE2", "SE3", "Compound"], true);
+            }
+            "C05" if index % 16 == 5 => {
+                scn = harvest(self.id, seed, index, tier, &["open", "balls", "slivers", "zero_weight"], &[], false);
+            }
             "C01" if index % 4 == 3 => {
                 // histories: re-setup with / replacement by a problem whose start is marginally
                 // inside an obstacle or whose goal region overlaps one
@@ -330,6 +368,9 @@ impl Check for PathProp {
             }
             "C05" if index % 5 == 4 => {
                 with_histories(&mut scn, &mut rng, o.max_iters.min(120), &["open", "balls", "shell_door"], false);
+            }
+            "C03" if index % 6 == 3 => {
+                scn = harvest(self.id, seed, index, tier, &["slivers", "slivers", "balls", "thin_wall"], &["RV", "RV", "RV", "SE2", "SO2", "Compound", "SE3"], false);
             }
             "C03" if index % 6 == 4 => {
                 // RRT* in clutter: many choose-parent and rewiring decisions per run with some
@@ -460,6 +501,7 @@ impl Check for PathProp {
         if scn.calls.iter().filter(|c| matches!(c, CallSpec::Setup { .. } | CallSpec::SetProblem { .. })).count() > 1 {
             rep.probe("resetup");
         }
+        let mut seen_segments = if scn.param("harvest").is_some() { Some(std::collections::HashSet::new()) } else { None };
         for (k, ci) in solves.iter().enumerate() {
             let call = &out.calls[*ci];
             if let Res::Path(p) = &call.res {
@@ -491,7 +533,7 @@ impl Check for PathProp {
                     ev.c01(*ci, &mut v)
                 }
                 "C02" => ev.c02(*ci, &mut v),
-                "C03" => ev.c03(*ci, &mut v),
+                "C03" => ev.c03_cached(*ci, &mut v, &mut seen_segments),
                 "C04" => ev.c04(*ci, &mut v),
                 "C05" => ev.c05(*ci, &mut v),
                 _ => false,
